@@ -1475,6 +1475,292 @@ def setter_stream(ctx, n_cases, cap):
                       dict(model=tot if okm else 'IndexError', implementation=m['ent'], input=m['desc']))
 
 
+# ----------------------------------------------------------------------------------------------- aliasing / rejected writes
+VM_LAYOUTS = ['int32C', 'int32F', 'int64C', 'int64F', 'int16C', 'strided-view', 'contiguous-view', 'transposed-view']
+MASK_LAYOUTS = ['boolC', 'boolF', 'uint8C', 'int64C', 'strided-view', 'contiguous-view']
+
+
+def in_layout(rng, arr, layout):
+    """(caller's array holding the values of `arr` in the given dtype/layout, the base array that owns the memory)"""
+    kind = arr.dtype == bool
+    if layout.startswith('strided'):
+        base = np.zeros((2 * arr.shape[0],) + arr.shape[1:], dtype=bool if kind else np.int32)
+        view = base[::2]
+        view[...] = arr
+        return view, base
+    if layout.startswith('contiguous'):
+        base = np.zeros((arr.shape[0] + 2,) + arr.shape[1:], dtype=bool if kind else np.int32)
+        view = base[1:1 + arr.shape[0]]
+        view[...] = arr
+        return view, base
+    if layout.startswith('transposed'):
+        base = np.ascontiguousarray(arr.transpose(2, 1, 0)).astype(np.int32)
+        return base.transpose(2, 1, 0), base
+    dt = dict(int32=np.int32, int64=np.int64, int16=np.int16, bool=bool, uint8=np.uint8)[layout[:-1]]
+    a = np.array(arr, dtype=dt, order=layout[-1])
+    return a, a
+
+
+def _snap_emitter(cfg, mat, integ, seg):
+    from raysect.optical import Spectrum, Point3D
+    world, ray, eye = _scene()
+    sp = Spectrum(500.0, 501.0, max(int(mat.bins), 1))
+    st, r = call(integ.integrate, sp, world, ray, None, mat, Point3D(*seg[:3]), Point3D(*seg[3:]), eye, eye)
+    d = dict(voxel_map=np.asarray(mat.voxel_map).ravel().tolist(), shape=tuple(np.asarray(mat.voxel_map).shape),
+             memoryview=np.asarray(mat.voxel_map_mv).ravel().tolist(), mask=np.asarray(mat.mask).ravel().tolist(), bins=int(mat.bins),
+             grid_shape=tuple(mat.grid_shape), grid_steps=tuple(mat.grid_steps), step=integ.step, min_samples=integ.min_samples,
+             result=(st, [float(v) for v in sp.samples] if st == 'ok' else None))
+    if cfg['geo'] == 'cyl':
+        d.update(rmin=mat.rmin, period=mat.period, dr=mat.dr, dphi=mat.dphi, dz=mat.dz)
+    else:
+        d.update(dx=mat.dx, dy=mat.dy, dz=mat.dz)
+    return d
+
+
+def _snap_object(rt, world, po, vd):
+    from raysect.optical import Ray
+    ray = Ray(origin=po, direction=vd, min_wavelength=500.0, max_wavelength=501.0, bins=max(int(rt.bins), 1))
+    st, sp = call(ray.trace, world)
+    tr = rt.transform
+    return dict(voxel_map=np.asarray(rt.voxel_map).ravel().tolist(), memoryview=np.asarray(rt.material.voxel_map_mv).ravel().tolist(),
+                mask=np.asarray(rt.mask).ravel().tolist(), bins=int(rt.bins), step=rt.step, min_samples=rt.material.integrator.min_samples,
+                transform=[[tr[i, j] for j in range(4)] for i in range(4)],
+                result=(st, [float(v) for v in sp.samples] if st == 'ok' else None))
+
+
+def _diff_keys(a, b):
+    return [k for k in a if a[k] != b[k] and not (isinstance(a[k], float) and a[k] != a[k] and b[k] != b[k])]
+
+
+def _mk_emitter(cfg, **kw):
+    from cherab.tools.raytransfer import CartesianRayTransferEmitter, CylindricalRayTransferEmitter
+    if cfg['geo'] == 'cart':
+        return CartesianRayTransferEmitter(cfg['shape'], cfg['steps'], **kw)
+    return CylindricalRayTransferEmitter(cfg['shape'], cfg['steps'], rmin=cfg['rmin'], **kw)
+
+
+def _mk_object(cfg, world, step, **kw):
+    from cherab.tools.raytransfer import RayTransferBox, RayTransferCylinder
+    sh, st = cfg['shape'], cfg['steps']
+    if cfg['geo'] == 'cart':
+        return RayTransferBox(sh[0] * st[0], sh[1] * st[1], sh[2] * st[2], sh[0], sh[1], sh[2], step=step, parent=world, **kw)
+    return RayTransferCylinder(cfg['rmin'] + sh[0] * st[0], sh[2] * st[2], sh[0], sh[2], radius_inner=cfg['rmin'], n_polar=sh[1],
+                               period=cfg['period'], step=step, parent=world, **kw)
+
+
+def _object_ray(rng, cfg):
+    """a ray through the middle region of the grid (local frame = world frame: no transform in these streams)"""
+    from raysect.optical import Point3D, Vector3D
+    sh, st = cfg['shape'], cfg['steps']
+    if cfg['geo'] == 'cart':
+        ext = [sh[a] * st[a] for a in range(3)]
+        tgt = [rng.uniform(0.2, 0.8) * e for e in ext]
+    else:
+        rout = cfg['rmin'] + sh[0] * st[0]
+        r, ph = rng.uniform(cfg['rmin'] + 0.2 * st[0], rout - 0.2 * st[0]), rng.uniform(-math.pi, math.pi)
+        ext = [2 * rout, 2 * rout, sh[2] * st[2]]
+        tgt = [r * math.cos(ph), r * math.sin(ph), rng.uniform(0.2, 0.8) * ext[2]]
+    d = [rng.gauss(0, 1) for _ in range(3)]
+    nd = math.sqrt(sum(c * c for c in d))
+    d = [c / nd for c in d]
+    o = [tgt[a] - 3 * max(ext) * d[a] for a in range(3)]
+    return o, d, Point3D(*o), Vector3D(*d)
+
+
+def aliasing_stream(ctx, n_cases, cap):
+    """caller-data aliasing: every array argument (voxel_map, mask) in every legal dtype / layout, through the constructor or
+    the setter of the emitters and of RayTransferBox / RayTransferCylinder.  The call must accept it, must not modify the
+    caller's array, and later in-place edits of the caller's array (or of the array it is a view of) must not reach the object:
+    getters and the matrix stay bit-identical, and equal to an object built from a private copy."""
+    from raysect.optical import World
+    rng = ctx.rng
+    lines, metas = [], []
+    for it in range(n_cases):
+        cfg = make_cart(rng) if rng.random() < 0.5 else make_cyl(rng)
+        cfg['vmap'] = cfg['mask'] = None
+        geo, sh = cfg['geo'], cfg['shape']
+        arg = 'voxel_map' if rng.random() < 0.6 else 'mask'
+        op, val, want = rnd_map_op(rng, sh)
+        while op != arg:
+            op, val, want = rnd_map_op(rng, sh)
+        layout = rng.choice(VM_LAYOUTS if arg == 'voxel_map' else MASK_LAYOUTS)
+        caller, base = in_layout(rng, val, layout)
+        before, base_before = np.array(caller), np.array(base)
+        target = 'emitter' if rng.random() < 0.5 else 'object'
+        path = rng.choice(['ctor', 'setter'])
+        desc = dict(kind='aliasing', geo=geo, shape=sh, steps=cfg['steps'], rmin=cfg.get('rmin'), period=cfg.get('period'), argument=arg,
+                    layout=layout, target=target, path=path, value=before.astype(int).ravel().tolist(), voxel_map=want.ravel().tolist())
+        ctx.count('A:%s:%s:%s:%s' % (target, path, arg, layout))
+        cls, seg = (seg_cart if geo == 'cart' else seg_cyl)(rng, cfg, False)
+        L = math.dist(seg[:3], seg[3:])
+        step = rnd_step(rng, cfg, max(L, 1e-6), False, cap)
+        world = World()
+        pre = None
+        if target == 'emitter':
+            integ = integrator(cfg, step, 2)
+            if path == 'ctor':
+                st, obj = call(_mk_emitter, cfg, **{arg: caller})
+            else:
+                obj = _mk_emitter(cfg)
+                pre = _snap_emitter(cfg, obj, integ, seg)
+                st, _ = call(setattr, obj, arg, caller)
+            snap = (lambda: _snap_emitter(cfg, obj, integ, seg))
+        else:
+            o, d, po, vd = _object_ray(rng, cfg)
+            desc.update(origin=o, direction=d)
+            if path == 'ctor':
+                st, obj = call(_mk_object, cfg, world, step, **{arg: caller})
+            else:
+                obj = _mk_object(cfg, world, step)
+                pre = _snap_object(obj, world, po, vd)
+                st, _ = call(setattr, obj, arg, caller)
+            snap = (lambda: _snap_object(obj, world, po, vd))
+        desc['step'] = step
+        if not (np.array_equal(caller, before) and np.array_equal(base, base_before)):
+            ctx.fail('C10:%s:modified-caller-array' % arg, '%s via %s of the %s changed the caller\'s %s array' % (arg, path, target, layout), desc)
+            continue
+        if st != 'ok':
+            ctx.fail('C10:%s:legal-layout-rejected' % arg, '%s (%s, right shape) via %s of the %s raised %s: %s' % (arg, layout, path, target, st, _ if path == 'setter' else obj), desc)
+            if pre is not None:
+                now = snap()
+                bad = _diff_keys(pre, now)
+                if bad:
+                    ctx.fail('C10:%s:rejected-write-left-a-trace' % arg, 'the rejected %s assignment (%s) changed %s of the %s: %r -> %r'
+                             % (arg, layout, bad, target, {k: pre[k] for k in bad if k != 'result'}, {k: now[k] for k in bad if k != 'result'}), desc)
+            continue
+        s0 = snap()
+        if s0['voxel_map'] != want.ravel().tolist() or s0['bins'] != int(want.max()) + 1 or s0['memoryview'] != s0['voxel_map']:
+            ctx.fail('C10:%s:attributes-after-assignment' % arg, '%s (%s) via %s: voxel_map %r, memoryview %r, bins %r; expected map %r'
+                     % (arg, layout, path, s0['voxel_map'], s0['memoryview'], s0['bins'], want.ravel().tolist()), desc)
+            continue
+        # the caller recycles its array (and the array it is a view of)
+        if arg == 'voxel_map':
+            caller[...] = np.roll(before, 1).reshape(before.shape) if rng.random() < 0.5 else (int(before.max()) + 3)
+            base[...] = int(before.max()) + 2 if base is not caller and rng.random() < 0.5 else base
+            if base is not caller:
+                caller[...] = -1
+        else:
+            caller[...] = np.logical_not(before).astype(caller.dtype)
+            if base is not caller:
+                base[...] = np.logical_not(base_before).astype(base.dtype)
+        s1 = snap()
+        bad = _diff_keys(s0, s1)
+        ctx.case(key=('alias', geo, sh, arg, layout, target, path) if s0['result'][1] and any(s0['result'][1]) else None)
+        if bad:
+            ctx.fail('C10:%s:aliases-caller-array' % arg,
+                     'after the caller edited its own %s array (%s, passed through the %s of the %s) the object changed: %s; matrix %r -> %r'
+                     % (arg, layout, path, target, bad, s0['result'], s1['result']), desc)
+            continue
+        # object built from a private copy
+        cfgf = dict(cfg, vmap=want, mask=None, kind='merge')
+        if target == 'emitter':
+            ref = impl_integrate(cfgf, step, 2, seg, None)
+            if ref[0] != s1['result'][0] or (ref[0] == 'ok' and ref[1] != s1['result'][1]):
+                ctx.fail('C10:%s:differs-from-private-copy' % arg, 'matrix %r, object built from a private copy %r' % (s1['result'], ref), desc)
+            lines.append(model_line(cfgf, step, 2, seg, [0.0] * s1['bins'], want, s1['bins']))
+            metas.append((s1['result'], desc))
+        else:
+            w2 = World()
+            rt2 = _mk_object(cfgf, w2, step, voxel_map=want)
+            ref = _snap_object(rt2, w2, po, vd)['result']
+            e1, e2 = s1['result'][1], ref[1]
+            same = s1['result'][0] == ref[0] and (e1 is None or (len(e1) == len(e2) and all(
+                abs(a - b) <= 1e-9 * max(abs(a), abs(b)) + 2.5 * step for a, b in zip(e1, e2))))
+            if not same:
+                ctx.fail('C10:%s:differs-from-private-copy' % arg, 'matrix %r, object built from a private copy %r' % (s1['result'], ref), desc)
+    outs = ctx.driver(lines) if lines else []
+    for (got, desc), o_ in zip(metas, outs):
+        mst, ment = parse_model(o_)
+        ctx.traces += 1
+        if mst != got[0] or (mst == 'ok' and not close(ment, got[1], TOL, 1e-300)):
+            ctx.disagreements += 1
+            ctx.broke('correspondence', 'C10 aliasing stream: model with the assigned map vs implementation', dict(model=(mst, ment), implementation=got, input=desc))
+
+
+def rejected_stream(ctx, n_cases, cap):
+    """rejected writes leave everything untouched: every validating setter of the integrators, emitters and ray-transfer objects
+    is attempted with an invalid value inside try/except on a live object; the write must raise and all getters and the matrix
+    must equal those before the attempt (and those of a fresh object)."""
+    from raysect.optical import World
+    rng = ctx.rng
+    for it in range(n_cases):
+        cfg = make_cart(rng) if rng.random() < 0.5 else make_cyl(rng)
+        geo, sh = cfg['geo'], cfg['shape']
+        wrong = [np.zeros((sh[0] + 1, sh[1], sh[2]), dtype=np.int32), np.zeros((sh[0], sh[2] + 2, sh[1]), dtype=np.int32),
+                 np.zeros((sh[0], sh[1] * sh[2]), dtype=np.int32), np.zeros((sh[0], sh[1], sh[2], 1), dtype=np.int32)]
+        wrongm = [w.astype(bool) for w in wrong]
+        world = World()
+        if it % 2 == 0:
+            target = 'emitter'
+            mat = material(cfg)
+            cls, seg = (seg_cart if geo == 'cart' else seg_cyl)(rng, cfg, False)
+            step = rnd_step(rng, cfg, max(math.dist(seg[:3], seg[3:]), 1e-6), False, cap)
+            integ = integrator(cfg, step, rng.choice([2, 3, 5]))
+            snap = (lambda: _snap_emitter(cfg, mat, integ, seg))
+            writes = [('step', integ, 'step', v) for v in (0.0, -0.5, -1e300, 0)] + \
+                     [('min_samples', integ, 'min_samples', v) for v in (1, 0, -3)] + \
+                     [('voxel_map', mat, 'voxel_map', w) for w in wrong] + [('mask', mat, 'mask', w) for w in wrongm]
+            if geo == 'cyl':
+                writes += [('rmin', mat, 'rmin', -1.0), ('rmin', mat, 'rmin', -1e-300)]
+            extra = dict(segment=seg, step=step)
+        else:
+            target = 'object'
+            span = max(sh[a] * cfg['steps'][a] for a in (0, 2))
+            step = rnd_step(rng, cfg, span, False, cap)
+            rt = _mk_object(cfg, world, step, voxel_map=cfg['vmap'], mask=cfg['mask'])
+            o, d, po, vd = _object_ray(rng, cfg)
+            snap = (lambda: _snap_object(rt, world, po, vd))
+            writes = [('step', rt, 'step', v) for v in (0.0, -0.5, 0)] + [('voxel_map', rt, 'voxel_map', w) for w in wrong] + \
+                     [('mask', rt, 'mask', w) for w in wrongm] + \
+                     [('step', rt.material.integrator, 'step', -2.0), ('min_samples', rt.material.integrator, 'min_samples', 1)]
+            extra = dict(origin=o, direction=d, step=step)
+        rng.shuffle(writes)
+        s0 = snap()
+        desc = dict(kind='rejected-write', geo=geo, shape=sh, steps=cfg['steps'], rmin=cfg.get('rmin'), period=cfg.get('period'),
+                    voxel_map=s0['voxel_map'], target=target, **extra)
+        ok = True
+        for site, obj, attr, val in writes[:rng.randint(3, len(writes))]:
+            st, msg = call(setattr, obj, attr, val)
+            what = '%s.%s = %s' % (type(obj).__name__, attr, ('array of shape %r' % (val.shape,)) if hasattr(val, 'shape') else repr(val))
+            ctx.count('R:%s:%s' % (target, site))
+            d2 = dict(desc, write=what)
+            if st == 'ok':
+                ctx.fail('C10:%s:invalid-value-accepted' % site, '%s was accepted' % what, d2)
+                ok = False
+                break
+            s1 = snap()
+            bad = _diff_keys(s0, s1)
+            if bad:
+                ctx.fail('C10:%s:rejected-write-left-a-trace' % site,
+                         '%s raised %s but changed %s: %r -> %r; matrix %r -> %r' % (what, st, bad, {k: s0[k] for k in bad if k != 'result'},
+                                                                                  {k: s1[k] for k in bad if k != 'result'}, s0['result'], s1['result']), d2)
+                ok = False
+                break
+        ctx.case(key=('rejected', geo, sh, target, it) if s0['result'][1] and any(s0['result'][1]) else None)
+        if ok and target == 'emitter':
+            ref = impl_integrate(dict(cfg), step, integ.min_samples, seg, None)
+            if ref[0] != s0['result'][0] or (ref[0] == 'ok' and ref[1] != s0['result'][1]):
+                ctx.fail('C10:rejected-write:differs-from-fresh-object', 'matrix %r, fresh emitter %r' % (s0['result'], ref), desc)
+    # constructors must reject the same values (no live object is involved; only "raises" is checked)
+    from cherab.tools.raytransfer import RayTransferBox, RayTransferCylinder, CartesianRayTransferEmitter, CylindricalRayTransferEmitter, RayTransferPipeline0D
+    from cherab.tools.raytransfer.emitters import CartesianRayTransferIntegrator, CylindricalRayTransferIntegrator
+    ctors = [('step', lambda: CartesianRayTransferIntegrator(-0.1)), ('step', lambda: CylindricalRayTransferIntegrator(0.0)),
+             ('min_samples', lambda: CartesianRayTransferIntegrator(0.1, 1)), ('step', lambda: RayTransferBox(1., 1., 1., 2, 2, 2, step=-1.0)),
+             ('period', lambda: RayTransferCylinder(2., 1., 2, 2, n_polar=3, period=77.0)),
+             ('period', lambda: CylindricalRayTransferEmitter((2, 3, 2), (1., 25.0, 1.))),
+             ('grid_shape', lambda: CartesianRayTransferEmitter((2, 0, 2), (1., 1., 1.))), ('grid_shape', lambda: CartesianRayTransferEmitter((2, 2), (1., 1., 1.))),
+             ('grid_steps', lambda: CartesianRayTransferEmitter((2, 2, 2), (1., -1., 1.))), ('grid_steps', lambda: CartesianRayTransferEmitter((2, 2, 2), (1., 1.))),
+             ('rmin', lambda: CylindricalRayTransferEmitter((2, 1, 2), (1., 360., 1.), rmin=-0.5)),
+             ('voxel_map', lambda: CartesianRayTransferEmitter((2, 2, 2), (1., 1., 1.), voxel_map=np.zeros((2, 2, 3), dtype=np.int32))),
+             ('mask', lambda: CartesianRayTransferEmitter((2, 2, 2), (1., 1., 1.), mask=np.ones((3, 2, 2), dtype=bool))),
+             ('kind', lambda: RayTransferPipeline0D(kind='blah'))]
+    for site, f in ctors:
+        st, _ = call(f)
+        ctx.count('R:ctor:' + site)
+        if st == 'ok':
+            ctx.fail('C10:%s:invalid-value-accepted' % site, 'constructor accepted an invalid %s' % site, dict(kind='ctor', site=site))
+
+
 # ----------------------------------------------------------------------------------------------- pipelines
 def _observers():
     """deterministic 1D / 2D observers (python subclasses of raysect's abstract observers): pixel -> one fixed ray"""
@@ -1575,7 +1861,14 @@ def pipeline_stream(ctx, n_cases):
         for k in range(rng.randint(2, 3)):
             if k > 0:
                 # change of the scene / of the observer between observes
-                ch = rng.choice(['none', 'mask', 'step', 'move', 'pixel_samples'])
+                ch = rng.choice(['none', 'mask', 'step', 'move', 'pixel_samples', 'bad-kind', 'bad-step'])
+                if ch == 'bad-kind':
+                    st_, _ = call(setattr, pipe, 'kind', rng.choice(['blah', '', 'Power ']))
+                    if st_ == 'ok' or pipe.kind != kind:
+                        ctx.fail('C10:kind:rejected-write-left-a-trace' if st_ != 'ok' else 'C10:kind:invalid-value-accepted',
+                                 'pipeline.kind after an invalid assignment: %r (was %r), status %s' % (pipe.kind, kind, st_), dict(kind='pipeline', dim=dim))
+                elif ch == 'bad-step':
+                    call(setattr, rt, 'step', rng.choice([0.0, -1.0]))          # must be a no-op: the next observe is compared with the traced rays
                 if ch == 'mask':
                     op, val, _ = rnd_map_op(rng, sh)
                     setattr(rt, op, val)
@@ -1711,6 +2004,8 @@ def run(ctx):
     period_stream(ctx, ctx.n(400, 5000), cap)
     emission_stream(ctx, ctx.n(1500, 15000))
     setter_stream(ctx, ctx.n(150, 1500), cap)
+    aliasing_stream(ctx, ctx.n(300, 3000), cap)
+    rejected_stream(ctx, ctx.n(120, 1200), cap)
     pipeline_stream(ctx, ctx.n(18, 150))
 
 
